@@ -94,3 +94,63 @@ Proof.
   revert b. induction a as [|x a IH]; intros [|y b]; simpl; try reflexivity.
   rewrite Nat.eqb_sym, IH. reflexivity.
 Qed.
+
+(* ---- accept/reject of a face-connection table does not depend on the order in which
+   its faces are listed (C17_iff: acceptance is the order-free predicate [accepted_spec]) ---- *)
+From Coq Require Import Permutation.
+From XV Require Import Model.FaceConn Spec.S17 Proofs.P17.
+
+Lemma lookupZ_perm {V} (tbl tbl' : list (Z * V)) k :
+  Permutation tbl tbl' -> NoDup (map fst tbl) -> lookupZ k tbl = lookupZ k tbl'.
+Proof.
+  intros HP ND.
+  assert (ND' : NoDup (map fst tbl')).
+  { eapply Permutation_NoDup; [apply Permutation_map; exact HP | exact ND]. }
+  destruct (lookupZ k tbl) as [v|] eqn:E.
+  - apply (lookup_In Z.eqb Z_eqb_spec') in E. symmetry.
+    apply (In_lookup_NoDup Z.eqb Z_eqb_spec'); [exact ND'|].
+    eapply Permutation_in; eassumption.
+  - destruct (lookupZ k tbl') as [v'|] eqn:E'; [|reflexivity].
+    apply (lookup_In Z.eqb Z_eqb_spec') in E'.
+    assert (HI : In (k, v') tbl) by (eapply Permutation_in; [apply Permutation_sym; exact HP | exact E']).
+    apply (In_lookup_NoDup Z.eqb Z_eqb_spec' k v' tbl ND) in HI. unfold lookupZ in E. congruence.
+Qed.
+
+Lemma reciprocal_perm tbl tbl' axes faces :
+  Permutation tbl tbl' -> NoDup (map fst tbl) ->
+  reciprocal tbl axes faces -> reciprocal tbl' axes faces.
+Proof.
+  intros HP ND HR fidx fal axis t pos l HI Ha Hpos Hs.
+  assert (HI' : In (fidx, fal) tbl) by (eapply Permutation_in; [apply Permutation_sym; exact HP | exact HI]).
+  destruct (HR fidx fal axis t pos l HI' Ha Hpos Hs) as [H1 [H2 H3]].
+  split; [exact H1|]. split; [exact H2|].
+  unfold link_reciprocated in *. destruct l as [[idx ax] rev].
+  destruct H3 as [H3 [H4 [fa [t' [H5 [H6 H7]]]]]].
+  split; [exact H3|]. split; [exact H4|]. exists fa, t'.
+  rewrite <- (lookupZ_perm tbl tbl' idx HP ND). repeat split; assumption.
+Qed.
+
+Lemma axis_keys_perm tbl tbl' a :
+  Permutation tbl tbl' -> In a (axis_keys tbl) -> In a (axis_keys tbl').
+Proof.
+  intros HP. unfold axis_keys. rewrite !in_flat_map. intros [e [He Ha]].
+  exists e. split; [eapply Permutation_in; eassumption | exact Ha].
+Qed.
+
+Lemma accept_order fd tbl tbl' dsdims faces axes :
+  Permutation tbl tbl' -> NoDup (map fst tbl) ->
+  (assign {| fc_dict := [(fd, tbl)]; fc_dsdims := dsdims; fc_faces := faces; fc_axes := axes |} = Ok tt <->
+   assign {| fc_dict := [(fd, tbl')]; fc_dsdims := dsdims; fc_faces := faces; fc_axes := axes |} = Ok tt).
+Proof.
+  intros HP ND.
+  assert (ND' : NoDup (map fst tbl')).
+  { eapply Permutation_NoDup; [apply Permutation_map; exact HP | exact ND]. }
+  rewrite !assign_iff. unfold accepted_spec. cbn [fc_dict fc_dsdims fc_axes fc_faces].
+  split; intros [fd0 [t0 [E [H1 [H2 H3]]]]]; inversion E; subst fd0 t0.
+  - exists fd, tbl'. split; [reflexivity|]. split; [exact H1|]. split.
+    + intros a Ha. apply H2. eapply axis_keys_perm; [apply Permutation_sym; exact HP | exact Ha].
+    + eapply reciprocal_perm; eassumption.
+  - exists fd, tbl. split; [reflexivity|]. split; [exact H1|]. split.
+    + intros a Ha. apply H2. eapply axis_keys_perm; eassumption.
+    + eapply reciprocal_perm; [apply Permutation_sym; exact HP | exact ND' | exact H3].
+Qed.
